@@ -3,7 +3,8 @@
    Proof files: CanonFacts.v (preferMove), Canon1-4.v (the loop of Canonical), on top of C14 (SymRules*.v, SymCode*.v) and C01. *)
 From Coq Require Import NArith ZArith List Bool.
 Require Import Rules SymRules2.
-Require Import Board Move GameOver Tps Symmetry CanonFacts Refine Preserve5 Canon1 Canon2 Canon2b Canon3 Canon4 Canon5.
+Require Import Board Move GameOver Tps Symmetry CanonFacts Refine Preserve5 Canon1 Canon2 Canon2b Canon3 Canon4 Canon5 Canon9 Canon10.
+Require Import SymCode1.
 Require Import Generated.Consts.
 Close Scope Z_scope. Close Scope N_scope.
 
@@ -58,5 +59,46 @@ Theorem C15_example64_hypotheses_hold :
 Proof. exact ex8_hypotheses_hold. Qed.
 Print Assumptions C15_example64_hypotheses_hold.
 
-(* canonical_class_invariant and canonical_idempotent (DESIGN 5.15) are not proved: they are decided by the correspondence and the
-   independent oracle (exhaustive on short games). *)
+(* DESIGN 5.15 canonical_class_invariant.  The eight images of a game have the same canonical form: if Canonical returns cs for ms, it returns
+   the same cs for the image of ms under each of the eight symmetries g (tmr g n m = the move TransformMove produces, C14_transform_move_tm).
+   Same hypotheses as canonical_legal_images (they are about the run on ms only: the run on the image is proved to build the SAME eight boards).
+   Proof: both runs keep the same boards; in canonical coordinates the two moves differ by an element of the stabiliser of board 0; the candidate
+   loop computes the preferMove-minimum over exactly that stabiliser (NoCollision one way, C08's equal_complete - same squares => same hash -
+   the other way), which is a group, and preferMove is a strict total order on an orbit: the same minimum.
+   Stated for accepted games (canonical ms = Ok cs; then ms is legal by canonical_legal_images).  NOT proved: that every legal game is
+   accepted (canonical ms = Ok _ for legal ms), so for a game Canonical rejects the theorem says nothing about its images. *)
+Theorem C15_canonical_class_invariant : forall sz, (3 <= sz <= 6)%N -> forall g ms cs, g < 8 ->
+  Forall canon_input ms -> nocoll_trace sz ms -> canonical gen_basis sz ms = Ok cs ->
+  canonical gen_basis sz (map (tmr g (N.to_nat sz)) ms) = Ok cs.
+Proof. exact canonical_class_invariant. Qed.
+Print Assumptions C15_canonical_class_invariant.
+
+Theorem C15_canonical_class_invariant64 : forall sz, (3 <= sz <= 8)%N -> forall g ms cs, g < 8 ->
+  Forall canon_input ms -> nocoll_trace sz ms -> sc_trace sz heights64 ms -> canonical gen_basis sz ms = Ok cs ->
+  canonical gen_basis sz (map (tmr g (N.to_nat sz)) ms) = Ok cs.
+Proof. exact canonical_class_invariant64. Qed.
+Print Assumptions C15_canonical_class_invariant64.
+
+(* DESIGN 5.15 canonical_idempotent: the canonical form is a fixed point. *)
+Theorem C15_canonical_idempotent : forall sz, (3 <= sz <= 6)%N -> forall ms cs,
+  Forall canon_input ms -> nocoll_trace sz ms -> canonical gen_basis sz ms = Ok cs ->
+  canonical gen_basis sz cs = Ok cs.
+Proof. exact canonical_idempotent. Qed.
+Print Assumptions C15_canonical_idempotent.
+
+Theorem C15_canonical_idempotent64 : forall sz, (3 <= sz <= 8)%N -> forall ms cs,
+  Forall canon_input ms -> nocoll_trace sz ms -> sc_trace sz heights64 ms -> canonical gen_basis sz ms = Ok cs ->
+  canonical gen_basis sz cs = Ok cs.
+Proof. exact canonical_idempotent64. Qed.
+Print Assumptions C15_canonical_idempotent64.
+
+(* non-vacuity: the image of the 5x5 example under rotCW is a different move list with the same canonical form; the canonical form differs
+   from the game and is a fixed point *)
+Theorem C15_example_class_invariant :
+  map (tmr 6 5) ex_ms <> ex_ms /\ canonical gen_basis 5 (map (tmr 6 5) ex_ms) = Ok ex_cs /\ canonical gen_basis 5 ex_ms = Ok ex_cs.
+Proof. exact ex_class_invariant. Qed.
+Print Assumptions C15_example_class_invariant.
+
+Theorem C15_example_idempotent : ex_cs <> ex_ms /\ canonical gen_basis 5 ex_cs = Ok ex_cs.
+Proof. exact ex_idempotent. Qed.
+Print Assumptions C15_example_idempotent.
